@@ -482,6 +482,12 @@ func c16Parallel(n int, f func() (any, error)) (okN int, panicked any) {
 func TestC16(t *testing.T) {
 	st := newStats(t, "C16", "cases = call sequences against the real notary service object over a real ledger, awaiting cache and challenge store with 7 client wallets (4 funded users, 1 unfunded, the node's own wallet, the genesis receiver): propose {spice, contract, contract+spice, empty} x {valid, wrong-key, bit-flipped signature}, confirm {receiver, stranger, issuer-only, signature of another transaction, bit-flipped}, reject {receiver, issuer, stranger, claims-receiver-signed-by-other, bit-flipped}, data, waiting/history {fresh, superseded, foreign challenge, other key, no challenge}, balance {own, other key, data != address, challenge as data}, saved, repeats and concurrent copies; oracle = reference state machine (awaiting, sealed, challenge) compared with ledger and cache after every step + authentication implications on every read; non-trivial = a contract reaches confirm/reject or an unauthenticated read is attempted; distinct by call-sequence fingerprint")
 	sim.Chdir(workDir(t))
+	if thorough() || shard() == 0 {
+		c16Expiry(st)
+		if len(st.Violations) > 0 {
+			t.Errorf("C16: expired challenge accepted")
+		}
+	}
 	caseNo := 0
 	rapid.Check(t, func(rt *rapid.T) {
 		if worldsMade >= maxWorlds() {
@@ -538,6 +544,35 @@ func TestC16(t *testing.T) {
 			rt.Fatalf("C16 violated (%s): %s", sig, msg)
 		}
 	})
+}
+
+// TestC16Expiry (thorough tier, real 1.2 s wait): a challenge older than its longevity no longer authenticates.
+func c16Expiry(st *stats) {
+	s, err := newSvc("c16-expiry", 3, 2, false, 1)
+	if err != nil {
+		return
+	}
+	defer s.close()
+	k := s.w.Wallets[1]
+	tx := ref.MakeTx("c16 expiry", spice.Melange{}, []byte{1, 2, 3}, k.Addr, s.w.Wallets[2], s.w.Epoch.Add(time.Hour))
+	s.notary.Propose(bg, protoTx(&tx))
+	blob, err := s.notary.Data(bg, &protobufcompiled.Address{Public: k.Addr})
+	if err != nil {
+		return
+	}
+	res, err := s.notary.Waiting(bg, signedHash(k.Addr, blob.Blob, k))
+	fresh := err == nil && res != nil
+	time.Sleep(1200 * time.Millisecond)
+	res2, err2 := s.notary.Waiting(bg, signedHash(k.Addr, blob.Blob, k))
+	st.eval(1)
+	st.nontrivial(fp64("expiry"))
+	st.label("clause:challenge-expiry")
+	if !fresh {
+		st.note("expiry scenario: the fresh challenge was not accepted (%v)", err)
+	}
+	if err2 == nil && res2 != nil {
+		st.reportOnce("expired-challenge-accepted", "Waiting returned data for a challenge older than its 1 s longevity", map[string]string{"scenario": "expiry"})
+	}
 }
 
 func TestReplayC16(t *testing.T) {
